@@ -128,6 +128,8 @@ static void do_convert(std::map<std::string, std::string>& kv) {
       I.converted = true;
     }
     warnings = I.env.GetWarnings();
+  } catch (const mp::ReadError& e) {
+    status = "readerror"; msg = e.what(); exctype = "mp::ReadError";
   } catch (const mp::Error& e) {
     status = "exc"; msg = e.what(); exctype = "mp::Error"; exitcode = e.exit_code();
   } catch (const std::exception& e) {
